@@ -2250,6 +2250,15 @@ ldb_write(ldb_t *db, ldb_batch_t *updates, const ldb_writeopt_t *options) {
 
       rc = ldb_writer_add_record(db->log, &contents);
 
+      if (rc != LDB_OK) {
+        /* A failed append leaves the log in an indeterminate state as
+           well: part of the record may be in the file while the writer
+           has already advanced its block offset, so records appended
+           later would be framed at the wrong position and dropped by
+           recovery. */
+        sync_error = 1;
+      }
+
       if (rc == LDB_OK && options->sync) {
         rc = ldb_wfile_sync(db->logfile);
 
